@@ -17,6 +17,8 @@ from . import analysis
 rule("C10.b", "on every path from the entry of a set-up / report method to a read of self.timegrid.restricted / "
               ".discount_factors the cache has been (re-)established for this asset, with no intervening call that "
               "re-establishes it for another asset", floor=12)
+rule("C09.h", "a loop over the assets of a portfolio reads nothing from the shared grid cache that a previous pass of the loop (the set-up of "
+              "the asset before) may have left there: otherwise the result depends on the order of the assets", floor=1)
 rule("C16.h", "a wrapper (scaled / structured / linked asset) reads the shared grid cache only after re-establishing it for itself, "
               "i.e. after the wrapped set-up has overwritten it", floor=2)
 rule("C17.i", "the cost vector a set-up returns under costs_only (the samples of the robust / stochastic targets) is computed from the grid "
@@ -64,7 +66,10 @@ class CacheAnalysis:
         if not isinstance(n, ast.Attribute) or not isinstance(n.ctx, ast.Load):
             return False
         c = au.attr_chain(n)
-        return bool(c and len(c) >= 3 and c[0] == "self" and c[1] == "timegrid" and c[2] in GRID_CACHE_ATTRS and len(c) == 3)
+        if c and len(c) == 3 and c[0] == "self" and c[1] == "timegrid" and c[2] in GRID_CACHE_ATTRS:
+            return True
+        # the same object through the set-up's own grid parameter (self.set_timegrid(timegrid) made it self.timegrid)
+        return bool(c and len(c) == 2 and c[0] == "timegrid" and c[1] in GRID_CACHE_ATTRS and getattr(self, "_param_grid_ok", False))
 
     def eval_events(self, node, s, dom):
         """Process reads and calls inside `node` in source order."""
@@ -136,6 +141,10 @@ class CacheAnalysis:
 
     def analyse_entry(self, fn, receiver):
         sites = []
+        # reads through the parameter `timegrid` count when the method hands that parameter to self.set_timegrid(..)
+        self._param_grid_ok = fn.param("timegrid") is not None and any(
+            isinstance(c, ast.Call) and au.method_name(c) == "set_timegrid" and au.base_name(c.func) == "self" and c.args and au.U(c.args[0]) == "timegrid"
+            for c in au.walk_local(fn.node))
 
         def report(n, st, via=None):
             sites.append((n, via))
@@ -176,7 +185,7 @@ def must_assign(fn) -> frozenset:
     return out if out is not None else frozenset()
 
 
-@analysis("gridcache", ["C10.b", "C10.c", "C16.h", "C10.g", "C17.i"])
+@analysis("gridcache", ["C10.b", "C10.c", "C16.h", "C10.g", "C17.i", "C09.h"])
 def run(ctx):
     p = ctx.p
     an = CacheAnalysis(ctx)
@@ -189,6 +198,15 @@ def run(ctx):
             n_entries += 1
             sites = an.analyse_entry(fn, ci)
             reads_any = any(an._is_cache_read(n) for n in au.walk_local(fn.node)) or bool(sites)
+            # C09.h: loops over the assets of a portfolio
+            for lp in au.walk_stmts(fn.body):
+                if isinstance(lp, ast.For) and any(isinstance(x, ast.Attribute) and x.attr == "assets" for x in au.walk_local(lp.iter)):
+                    inside = [n for n, via in sites if any(a is lp for a in p.ancestors(n))]
+                    ctx.ob("C09.h", fn, "loop over %s" % au.short(lp.iter, 50), not inside,
+                           "inside the loop the shared grid's cache (%s) is read on a path on which the previous pass has set it up for the asset "
+                           "before (a.set_timegrid / a.setup_optim_problem at the end of the pass): what this asset gets depends on which asset "
+                           "came before it, so permuting the assets changes the result" % (au.short(inside[0], 50) if inside else ""),
+                           node=(inside[0] if inside else lp))
             if not sites:
                 ctx.ob("C10.b", fn, "grid cache read before (re-)establishment", True,
                        "every read of the cache is dominated by an establishment for this asset", trivial=not reads_any)
